@@ -22,8 +22,11 @@ QUICK_MODELS = [
     ("noise_soft", dict(WithNoise=True, UseRestarts=True, MaxFun=4)),
     ("regress", dict(RegSteps=1, MaxFun=5, NPT=3)),
     ("grow", dict(NdirsInit=1, NPT=3, MaxFun=5)),
+    ("huge_anydrop", dict(WithInf=True, WithHuge=True, RhoDropAny=True, RhoLevels=3, MaxFun=5)),     # the generalisations used when real runs are followed (DfolsCtl.tla)
 ]
 THOROUGH_MODELS = [
+    ("huge_anydrop_soft", dict(WithInf=True, WithHuge=True, RhoDropAny=True, RhoLevels=3, MaxFun=5, UseRestarts=True, NoisyObjective=True)),
+    ("huge_anydrop_hardnew", dict(WithInf=True, WithHuge=True, RhoDropAny=True, RhoLevels=3, MaxFun=5, UseRestarts=True, SoftRestarts=False, UseOldRk=False, NoisyObjective=True)),
     ("grow6", dict(NdirsInit=1, NPT=3, MaxFun=6)),
     ("grow_soft", dict(NdirsInit=1, NPT=3, MaxFun=6, UseRestarts=True)),
     ("grow_hard", dict(NdirsInit=1, NPT=3, MaxFun=6, UseRestarts=True, SoftRestarts=False)),
@@ -125,11 +128,18 @@ def sensitivity(workdir, V):
 
 # ------------------------------------------------------------------------------------------- trace part
 
+CTL_PROPS = {"C02": (24, 240), "C03": (24, 240), "C04": (24, 240), "C10": (32, 300), "C08": (16, 160), "C11": (12, 120), "C18": (12, 120)}
+
+
 def trace_part(prop, insts, V, workdir, samples=3, nproc=None):
     t0 = time.time()
     traces = strace.record_many(insts, nproc=nproc)
     trec = time.time() - t0
     res = strace.validate(prop, traces, workdir)
+    ctl_cov = {}
+    if prop in CTL_PROPS:
+        from . import ctltrace
+        ctl_cov = ctltrace.conformance_part(prop, insts, traces, V, os.path.join(workdir, "ctl"), CTL_PROPS[prop][0 if vlib_tier(V) == "quick" else 1])
     byid = {i["id"]: i for i in insts}
     trbyid = {t["id"]: t for t in traces}
     nviol = 0
@@ -152,7 +162,7 @@ def trace_part(prop, insts, V, workdir, samples=3, nproc=None):
                 seen.add("c19first")
             if V.report(dict(clause=clause, site=evname, cls=cfg_class(byid[tid]), retflag="%s/%s" % (evt.get("flag"), evt.get("msgc")),
                              hasproj="yes" if byid[tid].get("proj") else "no", dyksite=str(evt.get("site", "")), exc=("%s: %s" % (evt.get("type"), str(evt.get("text"))[:60])) if evname == "Raise" else "",
-                             retnx=str(evt.get("nx", "")), initrepair=str(t["summary"].get("initrepair", "")), averaging="yes" if byid[tid].get("nsamples", "1") != "1" else "no", what="trace %d event %d (%s): clause %s false" % (tid, l, evname, clause),
+                             retnx=str(evt.get("nx", "")), initrepair=str(t["summary"].get("initrepair", "")), pclass=str(byid[tid].get("pclass", "")), averaging="yes" if byid[tid].get("nsamples", "1") != "1" else "no", what="trace %d event %d (%s): clause %s false" % (tid, l, evname, clause),
                              instance=dict(kind="solver", inst=byid[tid]), window=win, cfg=t["cfg"])):
                 nviol += 1
     outcomes, classes, counts = {}, set(), {}
@@ -171,7 +181,12 @@ def trace_part(prop, insts, V, workdir, samples=3, nproc=None):
     cov = dict(traces_validated_against_impl=len(traces), evaluations=len(traces), distinct_nontrivial=len(classes), events=nev, event_counts=counts,
                outcomes=outcomes, trace_states=res["distinct"], record_wall=round(trec, 1), tlc_trace_wall=round(res["wall"], 1),
                clause_failures=clause_hits, samples=smp)
+    cov.update(ctl_cov)
     return cov, traces
+
+
+def vlib_tier(V):
+    return getattr(V, "tier", "quick")
 
 
 def cfg_class(inst):
@@ -543,7 +558,7 @@ def corpus_C10(tier):
         elif j % 3 == 2:
             inst.update(restarts=corpus._pick(rng, ["hard", "hardnew"]), maxunsucc=2)
         if j % 4 == 0:
-            inst.update(noiseflag=True)
+            inst.update(noise=True)          # objfun_has_noise: restarts and the noise-level exit are on by default
         out.append(inst)
     # restart machinery live: eager auto-detection, noise, hard and soft restarts, the budget at every position
     AUTO = {"restarts.auto_detect.history": 3, "restarts.auto_detect.min_chgJ_slope": 0.0, "restarts.auto_detect.min_correl": 0.0}
@@ -551,7 +566,7 @@ def corpus_C10(tier):
                             dict(n=2, m=2, prob="ros", restarts="hardnew", maxunsucc=1, noise_sd=1e-2, rhoend=1e-8, user_params=dict(AUTO)),
                             dict(n=2, m=3, prob="nl", restarts="soft", maxunsucc=1, noise_sd=1e-2, rhoend=1e-8, user_params=dict(AUTO))]):
         b["seed"] = int(rng.integers(0, 2 ** 31 - 1))
-        for mf in range(8, 100, 1 if tier == "thorough" else 3):
+        for mf in range(8, 100, 1 if (tier == "thorough" or bi == 2) else 3):      # soft restarts: every budget (a restart must be judged with 1, 2, 3 ... evaluations left)
             out.append(dict(b, id=700000 + 1000 * bi + mf, maxfun=mf))
     return out
 
@@ -573,7 +588,7 @@ def corpus_C11(tier):
     # complete the returned Jacobian must be the plain fit again
     for j in range(12 if tier == "quick" else 150):
         nn = int(rng.integers(2, 5))
-        inst = dict(id=910000 + j, seed=int(rng.integers(0, 2 ** 31 - 1)), n=nn, m=nn + int(rng.integers(0, 3)), prob="lin", growing=1, rhoend=1e-3, maxfun=int(rng.integers(3 * nn + 4, 12 * nn)))
+        inst = dict(id=930000 + j, seed=int(rng.integers(0, 2 ** 31 - 1)), n=nn, m=nn + int(rng.integers(0, 3)), prob="lin", growing=1, rhoend=1e-3, maxfun=int(rng.integers(3 * nn + 4, 12 * nn)))
         inst.update(dict(zerocol=True) if j % 2 == 0 else dict(ascale=float(corpus._pick(rng, [1e-7, 1e-8]))))
         if j % 3 == 0:
             inst.update(bounds="both", x0place=["in"] * nn)
@@ -588,7 +603,7 @@ def corpus_C11(tier):
         inst = dict(id=920000 + j, seed=int(rng.integers(0, 2 ** 31 - 1)), n=2, m=2, prob="ros3", bounds="both", scaling=True, bscale=float(corpus._pick(rng, [2.0, 4.0])), x0place=["in", "in"],
                     restarts=corpus._pick(rng, ["hardnew", "hardnew", "hard"]), maxunsucc=3, rhoend=float(corpus._pick(rng, [1e-1, 3e-2, 1e-2])), maxfun=int(rng.integers(50, 160)))
         out.append(inst)
-    for j in range(12 if tier == "quick" else 200):
+    for j in range(24 if tier == "quick" else 300):
         # reduced initial set that grows by new directions each iteration, x0 on several bounds, budget ending soon after the set is complete
         n = 3 if j % 3 else 2
         places = ["L"] * n
